@@ -91,6 +91,17 @@ class CleanUnit:
         scan_ok = (all_t.count("remove_file") == 1 and " ".join(then).count("remove_file") == 1
                    and "remove_dir" not in all_t and "rename" not in all_t and "read_dir" in all_t
                    and re.search(r"remove_file \( %s \. path \( \) \)" % re.escape(var), " ".join(then)) is not None)
+        # ---- the caller: `Commands::Clean { path } => clean_command(&path)` in main -- DIR is the directory the user named, nothing derived from it
+        from vlib.extract import extract_match_arm
+        try:
+            fm = src.fn(MAIN, "main")
+            arm = extract_match_arm(fm["body"], "Commands :: Clean { path }")
+            arm_t = " ".join(arm["body"])
+        except Exception as e:
+            raise Undecided(f"main: arm `Commands::Clean {{ path }}` not found: {e}")
+        calls = re.findall(r"(\w+) \(", arm_t)
+        if "clean_command ( & path )" not in arm_t or any(c not in ("clean_command", "Ok", "Some") for c in calls):
+            raise Undecided("main: the Clean arm no longer hands the user's path straight to clean_command (`clean_command(&path)`): what directory is cleaned is outside the extracted predicate")
         # ---- predicate: statements of the loop body in front of the `if` + its condition; `VAR.file_name()` -> the parameter
         log = []
         prefix = Rule("Kt", f"let {var} = {var} ? ;", "", why="unwrapping of the directory entry dropped (the predicate takes its name)").apply(list(prefix), log)
